@@ -266,6 +266,7 @@ func (p *poller) readWriteLoop() {
 			default: // for socket connections
 				c := p.getConn(fd)
 				if c != nil {
+					readPending := false
 					if ev.Events&epollEventsWrite != 0 {
 						if c.onConnected == nil {
 							_ = c.flush()
@@ -287,7 +288,8 @@ func (p *poller) readWriteLoop() {
 							if asyncReadEnabled {
 								c.AsyncRead()
 							} else {
-								for i := 0; i < g.MaxConnReadTimesPerEventLoop; i++ {
+								i := 0
+								for ; i < g.MaxConnReadTimesPerEventLoop; i++ {
 									pbuf := g.borrow(c)
 									bufLen := len(*pbuf)
 									rc, n, err := c.ReadAndGetConn(pbuf)
@@ -311,6 +313,9 @@ func (p *poller) readWriteLoop() {
 										break
 									}
 								}
+								// the per-loop read limit was used up by full reads:
+								// more input may be waiting in the socket.
+								readPending = i >= g.MaxConnReadTimesPerEventLoop
 								if isOneshot {
 									c.ResetPollerEvent()
 								}
@@ -321,6 +326,13 @@ func (p *poller) readWriteLoop() {
 					}
 
 					if ev.Events&epollEventsError != 0 {
+						// The peer has shut down its side, but what it sent before
+						// has not been read completely yet. Level-triggered epoll
+						// reports the fd again: read the rest first, close then.
+						if readPending && g.EpollMod == EPOLLLT &&
+							ev.Events&(syscall.EPOLLERR|syscall.EPOLLHUP) == 0 {
+							continue
+						}
 						_ = c.closeWithError(io.EOF)
 						continue
 					}
